@@ -32,6 +32,14 @@ class Interrupt(Exception):
     pass
 
 
+class HardExit(BaseException):
+    """The code under test called os._exit(): the interpreter would end here
+    without running any finalizer."""
+
+    def __init__(self, code):
+        self.code = code
+
+
 class Runaway(BaseException):
     """The run exceeded its bound on command executions."""
 
@@ -795,11 +803,21 @@ def run_once(scn, ch, fault=None, before_main=None):
     x.rc = None
     x.sysexit = False
     x.pruned = False
+    x.hard_exit = False
+    real_exit = os._exit
+
+    def fake_exit(code=0):
+        raise HardExit(code)
+
+    os._exit = fake_exit
     try:
         if before_main:
             before_main(rt)
         try:
             x.rc = ddmain.main()
+        except HardExit as e:
+            x.rc = e.code
+            x.hard_exit = True
         except SystemExit as e:
             x.rc = e.code if isinstance(e.code, int) else 1
             x.sysexit = True
@@ -815,6 +833,7 @@ def run_once(scn, ch, fault=None, before_main=None):
                        ''.join(traceback.format_exception(
                            type(e), e, e.__traceback__))[-1500:])
     finally:
+        os._exit = real_exit
         sys.stdout, sys.stderr = old_out, old_err
         sys.argv = saved_argv
         Runtime.current = None
@@ -831,10 +850,14 @@ def run_once(scn, ch, fault=None, before_main=None):
         x.out_bytes = None
     t = tmpfiles.__dict__.get('__TMPDIR')
     x.tmpdir_name = t.name if t is not None else None
+    if x.hard_exit:
+        # no finalizer would have run: what is there now stays behind
+        x.tmp_left = sorted(os.listdir(tmp))
     if t is not None:
         t.cleanup()
         tmpfiles.__dict__['__TMPDIR'] = None
-    x.tmp_left = sorted(os.listdir(tmp))
+    if not x.hard_exit:
+        x.tmp_left = sorted(os.listdir(tmp))
     return x
 
 
